@@ -565,4 +565,4 @@ def _main_tail(run, P, ctx):
         'distinct_nontrivial': run.cov.get('prefix_lemmas', 0) + run.cov.get('directory_paths', 0),
         'rule': 'one evaluation per lemma, per symbolic path of directory, per wrapper',
         'exhaustive': True,
-    }, assumptions=['C02: find_path returns the path span', 'suffix() is NOT decided'])
+    }, assumptions=['C02: find_path returns the path span', 'suffix(): the gate, the lockstep table and the kind of segment equality are decided; the reconstruction law as an equality of values is not'])
